@@ -97,11 +97,23 @@ func runC07(cases string, res *Result) {
 			got, err := eng.Render(p, ctx)
 			check(p, exp, got, err)
 		}
+		// the text of a macro body built with the exported node constructors: {{ value|e }} in every spacing
+		if c.str("vkind") == "" && stream != "exhaustive2" {
+			form := c07MacroForms[len(in)%len(c07MacroForms)]
+			res.Hist["position:macrotext"]++
+			got, err := twig.VerifMacroTextCall(eng, "["+form+"]", in)
+			if err == nil && len(got) >= 2 {
+				got = got[1 : len(got)-1]
+			}
+			check("macrotext "+form, exp, got, err)
+		}
 		got, err := fallback(in)
 		check("fallback", expfb, got, err)
 	})
 	res.Exhaustive = []string{"exhaustive1", "exhaustive2"}
 }
+
+var c07MacroForms = []string{"{{ value|e }}", "{{value|e}}", "{{ value |e }}", "{{ value| e }}", "{{ value | e }}", "{{ value | escape }}", "{{  value  |  escape  }}", "{{ value |\te }}", "{{ value|escape }}"}
 
 // values of other kinds whose text form is the given string
 type c07StrInt int
